@@ -163,3 +163,20 @@ def build_wild(rng, B, D=None, compressed=False):
     else: data = bytes(rng.randrange(256) for _ in range(n))
     ed = rng.choice([3, 4, 4])
     return frame.frame(ed, 128 | (64 if compressed else 0), nsub, t, data), t, nsub
+
+
+def build_insert(rng, B, compressed=False):
+    """a bit-map over elements that include a 2 05 YYY character insert, every entry flagged present (zero bits) or
+    a random pattern, as many marker replicas as entries: what the markers after the insert take their layout from
+    depends on whether the insert counts as a data entity"""
+    pool = [d for d in ELEMENTS if d in B]
+    k = rng.choice([2, 3, 4])
+    els = [rng.choice(pool) for _ in range(k)]
+    els.insert(rng.randrange(0, k), 205000 + rng.choice([1, 2, 3]))
+    n = len(els)
+    start = rng.choice([224000, 223000])
+    t = els + [start, 236000, 101000 + n, 31031, 101000 + n, MARKERS[start]]
+    nsub = rng.choice([1, 2])
+    ln = rng.choice([40, 80])
+    data = bytes(ln) if rng.random() < 0.6 else bytes(rng.choice([0, 0, 0, 16, 64, 255]) for _ in range(ln))
+    return frame.frame(rng.choice([3, 4, 4]), 128 | (64 if compressed else 0), nsub, t, data), t, nsub
